@@ -67,6 +67,7 @@ size_t sim_ledger_live(std::string *detail) {
     }
     return led().size();
 }
+bool sim_ledger_has(const void *p) { return g_led && led().find((void *)p) != led().end(); }
 // returns true when this allocation must fail
 static bool alloc_gate() {
     if (t_suspend) return false;      // harness bookkeeping calls into the SUT: neither counted nor failed
@@ -326,6 +327,10 @@ extern "C" int __wrap_pthread_mutex_trylock(pthread_mutex_t *m) {
     }
     return r;
 }
+extern "C" int __wrap_pthread_mutex_lock(pthread_mutex_t *m);
+// Timed acquisitions are blocking acquisitions whose deadline never arrives in simulated time.
+extern "C" int __wrap_pthread_mutex_timedlock(pthread_mutex_t *m, const struct timespec *) { return __wrap_pthread_mutex_lock(m); }
+extern "C" int __wrap_pthread_mutex_clocklock(pthread_mutex_t *m, clockid_t, const struct timespec *) { return __wrap_pthread_mutex_lock(m); }
 // A blocking lock would park a thread that holds the baton; express it as try-and-yield so that a library that
 // switches from the trylock spin to pthread_mutex_lock still runs under the simulator.
 extern "C" int __real_pthread_mutex_lock(pthread_mutex_t *);
